@@ -28,6 +28,7 @@ SEMANTICS_ASSUMPTIONS = [
     'code between two awaits runs atomically (asyncio single-thread rule)',
     'calls on self.logger / logger are dropped (assumed effect-free and non-raising)',
     'type annotations, docstrings and cast() are dropped by extraction',
+    'no bytes / str / list object has 2^32 or more elements (so len() fits a uint32 length field)',
 ]
 
 
@@ -166,6 +167,9 @@ def run_property(prop, tier='quick', update_baseline=False, only=None, verbose=F
             cross['skipped'] += len(ocs) - limit
             ocs = ocs[:limit]
         for oc in ocs:
+            if oc.state.heap.get('__cut__'):
+                cross['skipped'] += 1
+                continue
             try:
                 pr = replay.prepare(r, oc)
             except Exception as e:      # harness trouble is never a verdict
@@ -390,6 +394,8 @@ def confirm(ob):
     if st is None or r.engine is None:
         return {'status': 'inconclusive', 'diffs': ['no state']}
     neg = [z3.Not(ob.goal)] if ob.kind != 'cover' else []
+    if st.heap.get('__cut__'):
+        return {'status': 'inconclusive', 'diffs': ['obligation lies behind a loop cut: no straight-line replay']}
     oc = getattr(ob, 'outcome', None)
     if oc is not None:
         return replay.replay_path(r, oc, extra=neg)
@@ -399,7 +405,7 @@ def confirm(ob):
     m = solve.model_for(ob.pc, neg + list(st.heap.get('__defs__', ())))
     if m is None:
         return {'status': 'no-model'}
-    job, cz = replay.build_job(r, st, m)
+    job, cz = replay.build_job(r, st, m, getattr(ob, 'engine', None))
     nat = replay.run_native(job)
     diffs = []
     ncalls = nat.get('calls', [])
